@@ -231,15 +231,20 @@ Definition ex_tree : stx :=
            ([], SObj [] [([32], [CRaw 97], [32], [32], SNum (mknum false [49] None None), [32]);
                          ([], [CRaw 98], [], [], SArr [13] [], []);
                          ([], [CRaw 97], [], [], SLit LTrue, [])], [])].
-Lemma parse_valid_example :
-  wf_stx ex_tree /\ Z.of_nat (nest ex_tree) < 3 /\ ints_in_range ex_tree = true /\ names_nul_free ex_tree = true /\
-  value (fun _ => 7) ex_tree =
-    JArr [JNull; JInt (-12); JDouble 7 (Some [48;46;53;69;43;49]);
+Definition jv_eqb_ex (v : jv) : bool :=
+  match v with
+  | JArr [JNull; JInt (-12); JDouble 7 (Some [48;46;53;69;43;49]);
           JStr [97;10;195;169;240;144;128;128;239;191;189;120;239;191;189]; JObj [];
-          JObj [([97], JBool true); ([98], JArr [])]] /\
+          JObj [([97], JBool true); ([98], JArr [])]] => true
+  | _ => false
+  end.
+Definition parse_valid_example_ok : bool :=
+  wf_stxb ex_tree && (Z.of_nat (nest ex_tree) <? 3) && ints_in_range ex_tree && names_nul_free ex_tree &&
+  jv_eqb_ex (value (fun _ => 7) ex_tree) &&
   match tok_new 3 true false false with
   | Some t => match parse_ex_cstr (fun _ => 7) t (render_doc [32] ex_tree [10]) with
-              | PR t' (Some v) => v = value (fun _ => 7) ex_tree /\ err t' = TE_success
-              | _ => False end
-  | None => False end.
-Proof. repeat split; vm_compute; reflexivity. Qed.
+              | PR t' (Some v) => jv_eqb_ex v && match err t' with TE_success => true | _ => false end
+              | _ => false end
+  | None => false end.
+Lemma parse_valid_example : parse_valid_example_ok = true.
+Proof. vm_compute. reflexivity. Qed.
